@@ -79,6 +79,12 @@ func genDeadlines(seed uint64, tier, variant string) any {
 			case y < 72:
 				c.S = "ctx-already-done"
 				c.TimeoutMs = 1000
+			case y < 82 && f != "pool":
+				// a context that has a (far) deadline AND is cancelled by hand: the cancellation must be honoured as
+				// promptly as for a context without a deadline
+				c.TimeoutMs = pick(r, 20_000, 60_000)
+				c.Cancel = true
+				c.CancelAfter = r.IntN(10)
 			}
 			if len(c.Cmds) == 1 && c.Cmds[0].Argv[0] == "BLPOP" && c.TimeoutMs == 0 && !c.Cancel {
 				// only the server-side timeout ends this call: keep it short, minutes of simulated keep-alives
@@ -144,6 +150,11 @@ func execDeadlines(t *testing.T, plan any, out *Outcome) {
 		var limit time.Time
 		what := ""
 		switch {
+		case spec.TimeoutMs > 0 && rec.CancelStep >= 0 && rec.CancelAt.Before(rec.Deadline) && p.Opt.AlwaysPipelining:
+			// (the property promises prompt manual cancellation for calls served by auto-pipelined connections: a
+			// context with a deadline may otherwise be served synchronously, where only the deadline counts)
+			limit, what = rec.CancelAt.Add(deadlineSlack), "cancellation"
+			out.probe("cancelled-before-its-deadline")
 		case spec.TimeoutMs > 0:
 			limit, what = rec.Deadline.Add(deadlineSlack), "deadline"
 		case rec.CancelStep >= 0:
